@@ -40,7 +40,7 @@ def _is_user(name):
     return name[:3] in ("en.", "ex.", "tr.", "fx.")
 
 
-def _trace(engine, case, nev, events, gtables, rng, with_services):
+def _trace(engine, case, nev, events, gtables, rng, with_services, batch=0):
     """Runs one engine; returns (trace, events, run)."""
     trace = []
 
@@ -62,9 +62,9 @@ def _trace(engine, case, nev, events, gtables, rng, with_services):
         return False
 
     if engine == "sync":
-        run = drive.run_sync(case, nev, rng, on_step, events=events, gtables=gtables)
+        run = drive.run_sync(case, nev, rng, on_step, events=events, gtables=gtables, batch=batch)
     elif engine == "async":
-        run = drive.run_async(case, nev, rng, on_step, events=events, gtables=gtables)
+        run = drive.run_async(case, nev, rng, on_step, events=events, gtables=gtables, batch=batch)
     else:
         run = drive.run_pure(case, nev, rng, on_step, events=events, gtables=gtables)
     return trace, run["events"], run
@@ -141,7 +141,7 @@ def run_case(res: Result, spec, idx):
     else:
         # finite raise fan-out must run to its natural end: the cut point of a runaway chain
         # is engine-specific and belongs to C13
-        P = gen.profile(pname, maxit=20000)
+        P = gen.profile(pname, maxit=20000, p_raise_d0=0.4, p_raise2=0.35, p_guard_obj=0.3)
         if idx % 4 == 1:
             # local state names reused across parents, targets written in EVERY spelling (bare and
             # relative ones included, ambiguous or not): whatever a spelling denotes, the three
@@ -171,6 +171,13 @@ def run_case(res: Result, spec, idx):
         tp, _, _ = _trace("pure", case, nev, events, gtables, erng, with_services)
         pairs.append(("sync", ts, "pure", tp, True))
         pairs.append(("async", ta, "pure", tp, True))
+    if not with_services and idx % 3 == 2:
+        # the same events handed over three at a time through send_events(): everything a batch
+        # member raises queues up BEHIND the rest of the batch, on both engines
+        tsb, _, _ = _trace("sync", case, nev, events, gtables, erng, with_services, batch=3)
+        tab, _, _ = _trace("async", case, nev, events, gtables, erng, with_services, batch=3)
+        pairs.append(("sync/batched", tsb, "async/batched", tab, False))
+        res.count("runs.batched")
     cfgs = {t["cfg"] for t in ts if "cfg" in t}
     ctxchg = any(ts[i]["ctx"] != ts[i - 1]["ctx"] for i in range(1, len(ts)) if "ctx" in ts[i] and "ctx" in ts[i - 1])
     raised = any(r[0] == "ev" and getattr(r[1], "payload", None) and r[1].payload.get("raised")
